@@ -520,6 +520,16 @@ def h17_map(i0: int, s0: str, present_a: bool, present_b: bool) -> bool:
         d["b"] = 0
     if data["extra"]:
         d["zz"] = 1
+    if data.get("bytes"):
+        # a bytes template looks its keys up as bytes: a dict literal with str keys never satisfies it
+        f = PercentFormatString.from_bytes_pattern(template.encode("ascii"))
+        if data["bytes"] == "b":
+            d = {k.encode("ascii"): v for k, v in d.items()}
+        errs = list(f.lint()) + list(f.accept(KnownValue(d), get_checker()))
+        c_ok = present_a and present_b and data["bytes"] == "b"
+        if c_ok:
+            c_ok = _arg_ok("num", data["a_kind"], i0, s0, True)
+        return fin((len(errs) == 0) == c_ok)
     errs = list(f.lint()) + list(f.accept(KnownValue(d), get_checker()))
     if data.get("mix"):
         # keyed and unkeyed specifiers in one template: CPython formats it, pyanalyze's documented stricter rule
@@ -964,6 +974,10 @@ def cases(tier: str, seed: int) -> List[Case]:
                 for extra in (0, 1):
                     out.append(Case("h17_map", f"map:{conv_a}{conv_b}:{a_kind}:{extra}",
                                     {"convs": [conv_a, conv_b], "a_kind": a_kind, "extra": extra}, timeout=60))
+                    if conv_a == "d" and conv_b == "d" and a_kind == "int":
+                        for kb in ("b", "s"):
+                            out.append(Case("h17_map", f"map:{conv_a}{conv_b}:{a_kind}:{extra}:bytes-{kb}keys",
+                                            {"convs": [conv_a, conv_b], "a_kind": a_kind, "extra": extra, "bytes": kb}, timeout=60))
                     if conv_b == "d":
                         out.append(Case("h17_map", f"map:{conv_a}{conv_b}:{a_kind}:{extra}:pct",
                                         {"convs": [conv_a, conv_b], "a_kind": a_kind, "extra": extra, "pct": 1}, timeout=60))
